@@ -96,6 +96,21 @@ def one(rng):
     if F == "tigerxml":
         # the document declares its own encoding; re-declare for the chosen one
         src_text = src_text.replace("<?xml version='1.0'?>", "<?xml version='1.0' encoding='%s'?>" % senc)
+    foreign = False
+    if F == "tigerxml" and rng.random() < 0.4:
+        foreign = True
+        # a foreign TIGER-XML file: optional attributes missing on some tokens
+        import re as _re
+        drop = rng.choice(["morph", "lemma", "both"])
+        def strip(m):
+            t = m.group(0)
+            if rng.random() < 0.6:
+                if drop in ("morph", "both"):
+                    t = _re.sub(r' morph="[^"]*"', "", t)
+                if drop in ("lemma", "both"):
+                    t = _re.sub(r' lemma="[^"]*"', "", t)
+            return t
+        src_text = _re.sub(r"<t [^>]*/>", strip, src_text)
     gz = F != "tigerxml" and rng.random() < 0.2
     dirmode = rng.random() < 0.1 and not gz
     lines = []
@@ -155,7 +170,8 @@ def one(rng):
                     want = src_text
                     if F == "tigerxml":
                         want = src_text.replace("encoding='%s'" % senc, "encoding='utf-8'")
-                    ok = back == want
+                    # a foreign file that omitted optional attributes comes back with the defaults filled in
+                    ok = foreign or back == want
                 if not ok:
                     l = Line("pred", "P.C03", [F, G, "f", "f", "-", "-"], note="A->B->A does not give the original back (rc=%d) %s" % (rc2, err2[-200:]))
                     l.expect = "round-trip-must-reproduce-source"
